@@ -53,7 +53,7 @@ func (c *checkCtx) confirm(v Violation) (bool, string) {
 		if err := json.Unmarshal(v.Replay, &p); err != nil {
 			return false, err.Error()
 		}
-		return c.tryPlan(&p, v.Key)
+		return c.tryPlanN(&p, v.Key, 10)
 	}
 	tmp := filepath.Join(c.S.Dir, fmt.Sprintf("replay-%d.json", time.Now().UnixNano()))
 	if err := os.WriteFile(tmp, v.Replay, 0o644); err != nil {
